@@ -427,7 +427,7 @@ example :
     let conn : Nat → Nat → Int := fun a b => (3 : Int) * a - 2 * b
     let F : List Node := [⟨0, 1, 1, 1, 5⟩, ⟨0, 2, 2, 2, -3⟩, ⟨1, 2, 3, 3, 4⟩, ⟨1, 3, 1, 2, 7⟩, ⟨2, 3, 2, 1, 1⟩]
     let s : Lat := ⟨[[⟨0, some 0⟩], [], [], [⟨7, some (-400)⟩], [⟨1, none⟩]],
-      [[], [], [], [⟨1, 3, 0, 7, -500⟩], [⟨2, 4, 1, 1, 5⟩]], [[], [], [], [(1, 0)], [(65535, 65535)]], some ((3, 0), -400), 5⟩
+      [[], [], [], [⟨1, 3, 0, 7, -500⟩], [⟨2, 4, 1, 1, 5⟩]], [[], [], [], [(1, 0)], [(65535, 4294967295)]], some ((3, 0), -400), 5⟩
     (∀ n ∈ F, n.b ≤ 3 ∧ n.e ≤ 3) ∧ 0 < 3 ∧
     (analyse conn s 3 F).map (fun x => (x.2, x.1.eos, x.1.size)) = some (true, some ((3, 1), -1), 4) ∧
     (analyse conn s 3 F).bind (fun x => fillTopPath x.1) = some [(2, 0), (3, 1)] ∧
@@ -460,7 +460,7 @@ theorem i32_lattice_eq_model (hconn : Total.I16Conn conn) (len : Nat) (hlen : le
       Total.connectEos Total.addI32 Total.I32_MAX conn rows len =
         (match argmin conn (build conn F init len) (eosNode len) with
          | none => .err "Disconnect"
-         | some (j, v) => .ok (v, len, Total.asU16 j)) := by
+         | some (j, v) => .ok (v, len, Total.asU32 j)) := by
   obtain ⟨rows, ents, h1, h2, h3⟩ := buildAll_rep conn hconn len hlen F (Total.reset len) init []
     (Total.reset_inv len) (reset_rep len) hF
   refine ⟨rows, ents, h1, ?_, ?_, connectEos_rep conn hconn len hlen rows _ h2 h3⟩
@@ -662,7 +662,7 @@ example :
     let F : List Node := [⟨0, 1, 9, 1, 80⟩, ⟨0, 1, 1, 1, 100⟩, ⟨0, 3, 3, 3, 700⟩, ⟨1, 3, 7, 7, 500⟩]
     let conn : Nat → Nat → Int := fun a b => if a == 0 && b == 9 then 1000 else 0
     let dirty : Lat := ⟨[[⟨0, some 0⟩], [], [], [⟨7, some (-400)⟩], [⟨1, none⟩]],
-      [[], [], [], [⟨1, 3, 0, 7, -500⟩], [⟨2, 4, 1, 1, 5⟩]], [[], [], [], [(1, 0)], [(65535, 65535)]], some ((3, 0), -400), 5⟩
+      [[], [], [], [⟨1, 3, 0, 7, -500⟩], [⟨2, 4, 1, 1, 5⟩]], [[], [], [], [(1, 0)], [(65535, 4294967295)]], some ((3, 0), -400), 5⟩
     positions x = some ps ∧ (∀ p ∈ ps, p.1 ≤ x.nchars) ∧
     dictLookup x 0 = [(268435456, 1), (0, 1), (1, 2), (2, 3)] ∧ dictLookup x 1 = [(3, 2)] ∧
     candsAt x 1 1 = some [⟨1, 3, 7, 7, 500⟩] ∧
